@@ -207,14 +207,24 @@ func runC17(t *testing.T, f c17flow, prefix []int) explore.ExecResult {
 
 // inbound QoS 2: two exchanges (message ids 5 and 6) whose PUBLISH (also duplicated) and PUBREL
 // (also retransmitted, also after the exchange finished) datagrams arrive in every order
-func runC17inbound(t *testing.T, depth int, prefix []int) explore.ExecResult {
+//
+// named: the subscription is by name (topic id 9 from the SUBACK) and the application may unsubscribe while
+// the exchanges are in progress; the PUBRELs must still be answered (the handler runs only for messages
+// released before the Unsubscribe).
+func runC17inbound(t *testing.T, depth int, named bool, prefix []int) explore.ExecResult {
 	res, _ := explore.Bubble(t, prefix, func(s *vsched.Sched) (string, []explore.Violation) {
 		s.NoChoice = true
 		c := cl.New(s, c17cfg())
 		connectAnd(c)
-		c.Go("Subscribe", func() error { return c.C.Subscribe("xy", 2, c.Handler("xy")) })
+		topic, tit, tid := "xy", uint8(2), uint16('x')<<8|'y'
+		if named {
+			topic, tit, tid = "s/1", 0, 9
+		}
+		c.Go("Subscribe", func() error { return c.C.Subscribe(topic, 2, c.Handler(topic)) })
 		c.Take()
 		s.NoChoice = false
+		unsubscribed := false
+		releasedBeforeUnsub := map[uint16]bool{}
 		ids := []uint16{5, 6}
 		pubSent := map[uint16]bool{}
 		rels := map[uint16]int{}
@@ -232,16 +242,33 @@ func runC17inbound(t *testing.T, depth int, prefix []int) explore.ExecResult {
 			for _, id := range ids {
 				pl := []byte(fmt.Sprintf("in%d", id))
 				if !pubSent[id] {
-					menu = append(menu, item{fmt.Sprintf("PUBLISH(%d)", id), refsn.Pkt{Type: refsn.PUBLISH, TIT: 2, TopicID: uint16('x')<<8 | 'y', MsgID: id, QoS: 2, Data: pl}})
+					menu = append(menu, item{fmt.Sprintf("PUBLISH(%d)", id), refsn.Pkt{Type: refsn.PUBLISH, TIT: tit, TopicID: tid, MsgID: id, QoS: 2, Data: pl}})
 				} else {
 					if rels[id] == 0 {
-						menu = append(menu, item{fmt.Sprintf("PUBLISH-dup(%d)", id), refsn.Pkt{Type: refsn.PUBLISH, TIT: 2, TopicID: uint16('x')<<8 | 'y', MsgID: id, QoS: 2, DUP: true, Data: pl}})
+						menu = append(menu, item{fmt.Sprintf("PUBLISH-dup(%d)", id), refsn.Pkt{Type: refsn.PUBLISH, TIT: tit, TopicID: tid, MsgID: id, QoS: 2, DUP: true, Data: pl}})
 					}
 					menu = append(menu, item{fmt.Sprintf("PUBREL(%d)", id), refsn.Pkt{Type: refsn.PUBREL, MsgID: id}})
 				}
 			}
+			if named && !unsubscribed {
+				menu = append(menu, item{name: "application: Unsubscribe (acknowledged)"})
+			}
 			it := menu[s.Choose(len(menu), "gateway sends")]
 			hist = append(hist, it.name)
+			if it.p.Type == 0 {
+				s.NoChoice = true
+				call := c.Go("Unsubscribe", func() error { return c.C.Unsubscribe(topic) })
+				s.NoChoice = false
+				c.Take()
+				unsubscribed = true
+				if !call.Returned || call.Err != "" {
+					add("unsubscribe-fails", "Unsubscribe returned=%t %q", call.Returned, call.Err)
+				}
+				continue
+			}
+			if it.p.Type == refsn.PUBREL && !unsubscribed && rels[it.p.MsgID] == 0 {
+				releasedBeforeUnsub[it.p.MsgID] = true
+			}
 			c.FromGateway(it.p.Encode())
 			var got []string
 			for _, o := range c.Take() {
@@ -275,6 +302,9 @@ func runC17inbound(t *testing.T, depth int, prefix []int) explore.ExecResult {
 			if rels[id] > 0 {
 				wantN = 1
 			}
+			if named && rels[id] > 0 && !releasedBeforeUnsub[id] {
+				wantN = 0 // released after the Unsubscribe: the callback is no longer invoked (C27)
+			}
 			if n != wantN && len(vs) == 0 {
 				add(fmt.Sprintf("handler-runs=%d:want=%d", n, wantN), "QoS 2 message %d delivered to the handler %d times (PUBRELs sent: %d)", id, n, rels[id])
 			}
@@ -297,7 +327,10 @@ func TestC17(t *testing.T) {
 	if explore.Tier() == "thorough" {
 		depth = 8
 	}
-	inbound := []explore.Scenario{{Name: "inbound QoS 2: two exchanges, duplicated PUBLISH / retransmitted PUBREL in every order", Run: func(p []int) explore.ExecResult { return runC17inbound(t, depth, p) }}}
+	inbound := []explore.Scenario{
+		{Name: "inbound QoS 2: two exchanges, duplicated PUBLISH / retransmitted PUBREL in every order", Run: func(p []int) explore.ExecResult { return runC17inbound(t, depth, false, p) }},
+		{Name: "inbound QoS 2 on a subscription by name, the application unsubscribes at any point", Run: func(p []int) explore.ExecResult { return runC17inbound(t, depth, true, p) }},
+	}
 	if explore.IsWorker() {
 		explore.ServeScenarios(append(scs, inbound...))
 		return
@@ -317,7 +350,7 @@ func TestC17(t *testing.T) {
 	}
 	rep.Coverage["evaluations"] = evals
 	rep.Coverage["distinct_nontrivial"] = rep.Coverage["states"]
-	rep.Coverage["rule"] = "for each API flow (Publish q1/q2 on registered, short and predefined topics, q0, q-1, Subscribe, Register, Unsubscribe; RetryCount 2, RetryDelay 1 s) against a scripted gateway: every transmission of the client is answered correctly (default), not answered (request or reply lost) or answered twice; all fault patterns with at most 3 deviations (thorough: up to 6, then all); plus two concurrent inbound QoS 2 exchanges whose PUBLISH (first and DUP copies) and PUBREL datagrams (retransmitted, also after completion, also after the other exchange finished) arrive in every order up to 6 (thorough 8) datagrams: each is answered by exactly one PUBREC/PUBCOMP with its id and each message reaches the handler once; distinct_nontrivial = distinct (transmission log, return value) outcomes"
+	rep.Coverage["rule"] = "for each API flow (Publish q1/q2 on registered, short and predefined topics, q0, q-1, Subscribe, Register, Unsubscribe; RetryCount 2, RetryDelay 1 s) against a scripted gateway: every transmission of the client is answered correctly (default), not answered (request or reply lost) or answered twice; all fault patterns with at most 3 deviations (thorough: up to 6, then all); plus two concurrent inbound QoS 2 exchanges whose PUBLISH (first and DUP copies) and PUBREL datagrams (retransmitted, also after completion, also after the other exchange finished) arrive in every order up to 6 (thorough 8) datagrams: each is answered by exactly one PUBREC/PUBCOMP with its id and each message reaches the handler once; the same on a subscription by name with an acknowledged Unsubscribe call at any point of the order (PUBRELs are still answered; the handler runs only for messages released before it); distinct_nontrivial = distinct (transmission log, return value) outcomes"
 	rep.Assumptions = []string{"default schedule (fault choices only)", "a lost request and a lost reply are the same event for the client"}
 	rep.Finish()
 }
